@@ -8,7 +8,7 @@ that make each pair compose to the identity, the Bel/Neper factor is ln(10)/2; (
 (1 power / 2 amplitude, 1/2 and 1 for nepers) and reference level of each unit equal the
 documented ones given the tabulated factor of the linear unit; (R5) level addition is the power
 sum log10(10^(a m) +- 10^(b m))/m with both guards; (R6) process lists = table rows naming the
-class, and special unit types precede the standard type. NOT decided: numpy's log/exp numerics."""
+class, and special unit types precede the standard type. NOT decided: numpy's log/exp numerics. (R8) every sum/difference/conversion reaches the unit-type dispatch (no early return) and conversions do not write to their operand; (R9) a unit scope removes from UNIT_TYPES only what it inserted."""
 import ast
 import math
 
